@@ -39,6 +39,21 @@ def canon_obs(x):
     return x
 
 
+def _repeats(op):
+    """Does the batch (first argument of a batched operation) list an element twice, up to the order of the nodes of a hyperedge?"""
+    def norm(x):
+        if isinstance(x, (list, tuple)):
+            if x and all(isinstance(y, (list, tuple)) for y in x):
+                return repr([sorted(map(repr, y)) for y in x])
+            return repr(sorted(map(repr, x)))
+        return repr(x)
+    try:
+        items = [norm(x) for x in op[1]]
+    except Exception:       # noqa: BLE001
+        return False
+    return len(set(items)) != len(items)
+
+
 def msort(xs):
     return sorted((canon_obs(x) for x in xs), key=lambda v: json.dumps(v, sort_keys=True))
 
@@ -98,6 +113,10 @@ class Explorer:
             if raised is not None:
                 after = ad.observe_real(real, ghost)
                 key_part = ad.partial_key(op)
+                if key_part and _repeats(op):
+                    # the recorded findings are about batches with a missing / undescribed element; a batch that is rejected because an
+                    # element is listed twice and still changes the state is a different failure and gets its own key
+                    key_part += ":repeated-element"
                 if after != before:
                     # rejected operation changed the observable state
                     diff = [k for k in before if before.get(k) != after.get(k)][:5]
